@@ -100,8 +100,11 @@ def opInstStarts (n k : Nat) (mask : Nat → Bool) : List Nat := (List.range k).
 
 /-- `select_start_nodes(td, env, k)` for OP on a batch with reset masks `masks` (`k`-major rows) -/
 def opStarts (n k : Nat) (masks : List (Nat → Bool)) : List Nat :=
+  -- `rearrange(selected, "b n -> (n b)")`: row `r` is copy `r / B` of instance `r % B`
+  -- (`Params.opsOpReplicaMajor`; a plain `(b n)` flatten would make it copy `r % k` of instance `r / k`)
   (List.range (k * masks.length)).map (fun r =>
-    opPick n (masks.getD (r % masks.length) (fun _ => false)) (r / masks.length))
+    if Params.opsOpReplicaMajor then opPick n (masks.getD (r % masks.length) (fun _ => false)) (r / masks.length)
+    else opPick n (masks.getD (r / k) (fun _ => false)) (r % k))
 
 /-- starts of instance `b` in a `k`-major list of `k·B` starts -/
 def instStarts (B k b : Nat) (sel : List Nat) : List Nat :=
@@ -120,13 +123,24 @@ the `n` entries of an instance are pairwise distinct. -/
 def sampleNReplace (w n : Nat) (masks : List (Nat → Bool)) : Bool :=
   masks.any (fun m => Params.opsSampleNReplaceCmp.evalNat (feasCount (w - 1) m) n)
 
+/-- the `n` draws of instance `b` in the returned vector: `rearrange(selected, "b n -> (n b)")` puts them at
+rows `j·B + b` (`Params.opsSampleNReplicaMajor`); a row-major flatten would put them at `b·n + j` -/
+def sampleNRows (B n b : Nat) (sel : List Nat) : List Nat :=
+  if Params.opsSampleNReplicaMajor then instStarts B n b sel else (List.range n).map (fun j => sel.getD (b * n + j) 0)
+
 def sampleNOk (w n : Nat) (masks : List (Nat → Bool)) (sel : List Nat) : Bool :=
   sel.length == n * masks.length &&
-  (List.range (n * masks.length)).all (fun r =>
-    let s := sel.getD r 0
-    decide (s < w) && (masks.getD (r % masks.length) (fun _ => false)) s) &&
+  (List.range masks.length).all (fun b =>
+    (sampleNRows masks.length n b sel).all (fun s => decide (s < w) && (masks.getD b (fun _ => false)) s)) &&
   (sampleNReplace w n masks ||
-    (List.range masks.length).all (fun b => nodupB (instStarts masks.length n b sel)))
+    (List.range masks.length).all (fun b => nodupB (sampleNRows masks.length n b sel)))
+
+/-- `(lo, m)` of the forced starts a decoding hook produces: `DecodingStrategy.pre_decoder_hook` (multistart) and
+`BeamSearch.pre_decoder_hook` call the ENV METHOD `env.select_start_nodes(td, num_starts=…)` (so the overrides
+of PDP / MTVRP / FLP / MCP apply); calling the generic helper instead would bypass them -/
+def hookRule (beam : Bool) (env : String) (genNumLoc nAct nLocs : Nat) : Nat × Nat :=
+  if (if beam then Params.decBeamEnvSelect else Params.decMultistartEnvSelect) then envRule env genNumLoc nAct nLocs
+  else genericRule env genNumLoc
 
 /-! ### best-of-k selection -/
 
